@@ -191,6 +191,12 @@ func edgeLits(b *ssa.BasicBlock, idx int, pred *ssa.BasicBlock) (lits []Lit, fea
 		}
 		in, _ := edgeLits(pred, pi, nil)
 		for _, l := range lits {
+			// an operand computed in b itself is a new instance on this entry (a loop body
+			// re-entered from its own latch): the literal of the entering edge talks about
+			// the previous one
+			if definedInBlock(l.X, b) || definedInBlock(l.Y, b) {
+				continue
+			}
 			for _, m := range in {
 				if l.Kind == m.Kind && l.Pos != m.Pos && sameOperand(l.X, m.X) && (l.Kind != "eq" && l.Kind != "lt" || sameOperand(l.Y, m.Y)) {
 					return nil, false
@@ -199,6 +205,16 @@ func edgeLits(b *ssa.BasicBlock, idx int, pred *ssa.BasicBlock) (lits []Lit, fea
 		}
 	}
 	return lits, true
+}
+
+// definedInBlock: v, or something v is computed from within the same block, is an
+// instruction of block b.
+func definedInBlock(v ssa.Value, b *ssa.BasicBlock) bool {
+	if v == nil {
+		return false
+	}
+	in, ok := v.(ssa.Instruction)
+	return ok && in.Block() == b
 }
 
 func sameOperand(a, b ssa.Value) bool {
